@@ -7,7 +7,7 @@ From Coq Require Import Lia.
 Lemma autos_off xs : run_autos_off xs = autos_raise xs.
 Proof. induction xs as [|[x|] xs IH]; simpl; auto. Qed.
 Lemma items_off items : run_items_off items = items_raise false items.
-Proof. induction items as [|[x|xs|] items IH]; simpl; auto. rewrite autos_off, IH. reflexivity. Qed.
+Proof. induction items as [|[x|xs| |ys] items IH]; simpl; auto. rewrite autos_off, IH. reflexivity. Qed.
 Lemma steps_off steps : existsb run_step_off steps = is_some (fidx false steps).
 Proof. induction steps as [|sp steps IH]; simpl; auto. rewrite IH. unfold run_step_off, step_raises. rewrite items_off.
   destruct (items_raise false (s_body sp) || s_cb_raises sp); simpl; auto.
